@@ -21,8 +21,8 @@ type grammarInfo struct {
 	parserRules map[string]string   // rule name -> body text
 	lexerRules  map[string][]string // token name -> literal alternatives (only rules made of literals)
 	lexerBody   map[string]string
-	literal     []string // generated LiteralNames
-	symbolic    []string // generated SymbolicNames
+	literal     []string         // generated LiteralNames
+	symbolic    []string         // generated SymbolicNames
 	tokenConst  map[string]int64 // token name -> value of the generated constant YarnSpinnerLexer<NAME>
 	problems    []string
 }
